@@ -66,9 +66,17 @@ def _norm(r: dict[str, Any]) -> dict[str, Any]:
     return dict(r, stdout=re.sub(r"`-?\d+", "", r.get("stdout") or ""))
 
 
+def _multiset(r: dict[str, Any]) -> Any:
+    o = runner.observable(r)
+    return [o["status"], {f: sorted(v) for f, v in o["per_file"].items()}, o["other"], o["stderr"]]
+
+
 def compare(par: dict[str, Any], seq: dict[str, Any], what: str) -> dict[str, Any] | None:
     par, seq = _norm(par), _norm(seq)
-    if runner.same_observable(par, seq):
+    # C07 states "the same diagnostics and exit status"; it does not state an order. A parallel
+    # build reports a module's interface-phase messages before its implementation-phase messages,
+    # so messages of one file are compared as a multiset (status, summary and stderr exactly).
+    if _multiset(par) == _multiset(seq):
         return None
     if runner.differs_only_in_only_once(par, seq):
         return {"kind": "only_once_note", "where": what, "diff": runner.first_difference(par, seq)}
